@@ -29,7 +29,16 @@ func (u *UseCase) UpdateTx(ctx context.Context, oldTxId, newTxId string, filter 
 		u.txStore.Put(newTxId, newTx)
 	}
 
-	newTx.RLock()
+	// The conflict check, the persistent write and the publication to the
+	// in-memory lists form one critical section: otherwise two conflicting
+	// commits can both pass the check before either of them publishes.
+	newTx.Lock()
+	u.allStore.Lock()
+	defer func() {
+		u.allStore.Unlock()
+		newTx.Unlock()
+	}()
+
 	var (
 		files     = make([]model.File, 0, tx.Len())
 		freeNodes = make([]*core.Node[model.File], 0, tx.Len())
@@ -64,7 +73,6 @@ func (u *UseCase) UpdateTx(ctx context.Context, oldTxId, newTxId string, filter 
 			freeNodes = append(freeNodes, n)
 		}
 	}
-	newTx.RUnlock()
 	if err != nil {
 		return
 	}
@@ -73,13 +81,6 @@ func (u *UseCase) UpdateTx(ctx context.Context, oldTxId, newTxId string, filter 
 	if len(files) == 0 {
 		return
 	}
-
-	newTx.Lock()
-	u.allStore.Lock()
-	defer func() {
-		u.allStore.Unlock()
-		newTx.Unlock()
-	}()
 
 	err = u.fileRepo.RunTransaction(ctx, func(ctx context.Context) error {
 		for i := range files {
